@@ -461,7 +461,7 @@ func subReadResults() mon.Sub {
 					stream = append(stream, f.Encode()...)
 				}
 				plans := xport.Plans(int64(k), nil)
-				switch i % 3 {
+				switch i % 4 {
 				case 0: // ReadData then the close reason
 					rw := xport.RW{Reader: xport.NewChunker(stream, plans[k%len(plans)]), Writer: io.Discard}
 					var data []byte
@@ -520,6 +520,37 @@ func subReadResults() mon.Sub {
 					if !recheck(c, hs, "answering the held control message") {
 						return
 					}
+				case 3: // the type-filtered helpers: a message of the other type is skipped first, the wanted one returned
+					small := payload
+					if len(small) > 600 {
+						small = small[:[]int{1, 100, 511, 512, 513}[k%5]]
+					}
+					var st2 []byte
+					for _, f := range []ref.Frame{
+						{H: ref.Header{Fin: false, Op: ref.OpBinary}, Payload: []byte("unwanted-")},
+						{H: ref.Header{Fin: true, Op: ref.OpCont}, Payload: bytes.Repeat([]byte("u"), k%700)},
+						{H: ref.Header{Fin: true, Op: ref.OpText}, Payload: small},
+					} {
+						if side == ref.SideServer {
+							f.H.Masked = true
+							c.Rng.Read(f.H.Mask[:])
+						}
+						st2 = append(st2, f.Encode()...)
+					}
+					rw := xport.RW{Reader: xport.NewChunker(st2, plans[k%len(plans)]), Writer: io.Discard}
+					var data []byte
+					var err error
+					if side == ref.SideServer {
+						data, err = wsutil.ReadClientText(rw)
+					} else {
+						data, err = wsutil.ReadServerText(rw)
+					}
+					if err != nil || !bytes.Equal(data, small) {
+						c.Fail("aliasing/ReadText payload at return", fmt.Sprintf("ReadClientText/ReadServerText after a skipped binary message: err=%v, payload as sent: %v (a payload that differs right at return lies in memory the library has already given back)", err, bytes.Equal(data, small)), map[string]interface{}{"len": len(small), "side": side})
+						return
+					}
+					want := string(small)
+					hs = append(hs, held{what: "ReadText payload (after a skipped binary message)", get: func() string { return string(data) }, want: want})
 				case 2: // ParseCloseFrameData / ReadFrame
 					ch := xport.NewChunker(frames[3].Encode(), plans[k%len(plans)])
 					f, err := ws.ReadFrame(ch)
